@@ -382,3 +382,25 @@ FIXED_CFGS = [
 
 def cfg_key(cfg) -> str:
     return repr((cfg["preset"], sorted(cfg["options"].items(), key=lambda kv: kv[0]), cfg["enable"], cfg["disable"]))
+
+
+def scale_docs(quick: bool = True) -> list[tuple[str, str]]:
+    """documents at scale: limits and counters that only large inputs reach (the table rule counts auto-completed cells — upstream's
+    limit is 65 536 —, lists count items, the reference rule rescans).  Seeded changes C03i, C02m, C03m need > 65 536 missing cells in one
+    table: many short rows under a wide header, or a header wider than the limit with a short *first* body row."""
+    wide = "|".join(["h"] * 2048)
+    huge = "|".join(["h"] * 65600)
+    out = [
+        ("sparse table 2048x40", "|" + wide + "|\n|" + "|".join(["-"] * 2048) + "|\n" + "".join(f"|r{i}|\n" for i in range(40)) + "\ntail\n"),
+        ("sparse table in a quote", "> |" + wide + "|\n> |" + "|".join(["-"] * 2048) + "|\n" + "".join(f"> |r{i}|\n" for i in range(36)) + "\ntail\n"),
+        ("ragged table 300x300", "|" + "|".join(["h"] * 300) + "|\n|" + "|".join(["-"] * 300) + "|\n" + "".join(f"|r{i}|\n" for i in range(300)) + "\ntail\n"),
+        ("header wider than 65536, short first row", "|" + huge + "|\n|" + "|".join(["-"] * 65600) + "|\n|a|\n|b|c|\n\ntail\n"),
+        ("dense table 260x260", "|" + "|".join(["h"] * 260) + "|\n|" + "|".join(["-"] * 260) + "|\n" + ("|" + "|".join(["c"] * 260) + "|\n") * 260),
+        ("long list", "".join(f"{i}. item\n" for i in range(1, 1200)) + "\npara\n"),
+        ("many definitions", "".join(f"[r{i}]: /u{i}\n" for i in range(300)) + "\n[r7]\n"),
+        ("deep quotes", "".join("> " * (i % 60) + "x\n\n" for i in range(240))),
+    ]
+    if not quick:
+        out.append(("sparse table 4096x40", out[0][1].replace("|h", "|h|h", 2048)))
+        out.append(("header wider than 65536 in a list item", "- |" + huge + "|\n  |" + "|".join(["-"] * 65600) + "|\n  |a|\n\ntail\n"))
+    return out
